@@ -1,7 +1,7 @@
 (* C02  Every emitted stub file is syntactically valid Safe-DS (identifier part: keywords are back-quoted at every name site). *)
 From Coq Require Import List String Ascii ZArith Bool Permutation Sorting.Sorted. Import ListNotations.
 From SV Require Import Lib.Str Gen.Tables Spec.Keywords Model.Types Model.Naming Model.Api Model.Back
-     Proofs.NamingProofs Proofs.BackProofs Proofs.MoreProofs.
+     Spec.Sds Proofs.NamingProofs Proofs.BackProofs Proofs.MoreProofs Proofs.SdsProofs.
 
 (* each of the 33 keywords of the language definition is back-quoted by the escape function read from the code *)
 Theorem C02_escape_covers_keywords : forallb (fun k => str_eqb (escape k) (bq :: k ++ [bq])) spec_keywords = true.
@@ -23,8 +23,68 @@ Proof. exact emit_name_escaped. Qed.
 Theorem C02_converted_ident_chars : forall nc c name, ascii_ident name = true -> ascii_ident (convert nc c name) = true.
 Proof. exact convert_ident_chars. Qed.
 
+(* ---- lexical structure, against the scanner of Spec/Sds.v (written from the language definition) ---- *)
+
+(* fragments that are closed (from a clean code state back to a clean code state, same bracket depths, no error)
+   compose, and a closed text is lexically well formed *)
+Theorem C02_closed_fragments_compose : forall l, Forall closed l -> closed (List.concat l).
+Proof. exact closed_concat. Qed.
+
+Theorem C02_closed_is_well_formed : forall text, closed text -> lex_ok text = true.
+Proof. exact closed_lex_ok. Qed.
+
+(* every name printed at a declaration site is a closed fragment, keyword or not *)
+Theorem C02_emitted_name_closed : forall name, ascii_ident name = true -> closed (escape name).
+Proof. exact emitted_name_closed. Qed.
+
+(* a documentation comment is one closed block comment WHATEVER the text: the escape read from the source leaves no
+   terminator inside *)
+Theorem C02_doc_comment_closed : forall ind text, spaces ind = true ->
+  closed (K"/**" ++ NL ++ escape_comment_text text ++ ind ++ K" */").
+Proof. exact doc_comment_closed. Qed.
+
+Theorem C02_escaped_comment_has_no_terminator : forall text, no_terminator false (escape_comment_text text) = true.
+Proof. exact escaped_comment_has_no_terminator. Qed.
+
+(* string literals (literal types, default values) are closed WHATEVER the value, and plain values are unchanged *)
+Theorem C02_string_literal_closed : forall value, closed (quoted (escape_string_content value)).
+Proof. exact escaped_string_closed. Qed.
+
+Theorem C02_literal_type_string_closed : forall s, closed (render_lit (LStr s)).
+Proof. exact literal_string_closed. Qed.
+
+Theorem C02_quoted_default_closed : forall value, closed (requote_default (quoted value)).
+Proof. exact quoted_default_closed. Qed.
+
+Theorem C02_plain_string_unchanged : forall value, forallb plain_value_char value = true -> escape_string_content value = value.
+Proof. exact escape_plain_string. Qed.
+
+(* TODO lines: every message of the table read from the source is a closed line comment *)
+Theorem C02_line_comment_closed : forall body, no_nl body = true -> closed (K"//" ++ body ++ NL).
+Proof. exact line_comment_closed. Qed.
+
+Theorem C02_todo_messages_one_line :
+  forallb (fun kv => no_nl (snd kv)) t_todo_messages && no_nl t_todo_prefix && starts_with (K"//") t_todo_prefix = true.
+Proof. exact todo_messages_have_no_newline. Qed.
+
+(* the source applies the escapes at as many places as the model *)
+Theorem C02_escape_sites : t_comment_escape_sites = 2 /\ t_string_escape_sites = 2.
+Proof. exact escape_sites_as_modelled. Qed.
+
 Print Assumptions C02_escape_covers_keywords.
 Print Assumptions C02_keyword_table_is_spec.
 Print Assumptions C02_escape_shape.
 Print Assumptions C02_name_sites_escaped.
 Print Assumptions C02_converted_ident_chars.
+Print Assumptions C02_closed_fragments_compose.
+Print Assumptions C02_closed_is_well_formed.
+Print Assumptions C02_emitted_name_closed.
+Print Assumptions C02_doc_comment_closed.
+Print Assumptions C02_escaped_comment_has_no_terminator.
+Print Assumptions C02_string_literal_closed.
+Print Assumptions C02_literal_type_string_closed.
+Print Assumptions C02_quoted_default_closed.
+Print Assumptions C02_plain_string_unchanged.
+Print Assumptions C02_line_comment_closed.
+Print Assumptions C02_todo_messages_one_line.
+Print Assumptions C02_escape_sites.
